@@ -112,6 +112,18 @@ func (h *histRun[G, S]) redistribute(cur *epoch[G, S], prev []sim.ID, next *acSp
 		var prevShard *mpc.BaseShard[G, S]
 		if prevSet[id] {
 			prevShard = cur.shards[id]
+		} else if h.w.IntN(2) == 0 {
+			// A party that does not drive the step (a holder being recovered, a holder that
+			// merely receives) may still hand in whatever shard it has: the API accepts it
+			// and documents it as irrelevant. Oldest epoch first: a stale shard whose public
+			// data differs from the current epoch's.
+			for _, e := range h.epochs {
+				if sh := e.shards[id]; sh != nil {
+					prevShard = sh
+					h.probes["non_driver_hands_in_old_shard"]++
+					break
+				}
+			}
 		}
 		pr.start(script{name: fmt.Sprintf("R@%d", id), party: id, fn: func(ctx context.Context, rt *network.Router) (any, error) {
 			rnd := sim.NewRand(rc.Seed.Sub(fmt.Sprintf("rand/%d", id)))
